@@ -416,6 +416,7 @@ compile:
 	task.Status.Print(m.Addr)
 	if err := g.Wait(); err != nil {
 		task.Errorf("failed to commit combiner: %v", err)
+		m.Done(procs, err)
 		return
 	}
 
